@@ -602,7 +602,9 @@ func sortStrings(s []string) {
 	}
 }
 
-func isResponse(n *node) bool { return len(n.head) >= 3 && n.head[0] >= '1' && n.head[0] <= '5' && n.include == nil }
+func isResponse(n *node) bool {
+	return len(n.head) >= 3 && n.head[0] >= '1' && n.head[0] <= '5' && n.include == nil
+}
 
 func (g *gen) macroize(top []*node) []*node {
 	// a macro with common error responses, pasted into methods that do not have those codes
